@@ -29,7 +29,8 @@ COMPONENTS = {"real": ["Exchange", "LimitOrderBook", "EventNBBO", "EventContract
               "harness": ["dict book model", "calendar-free lead model"], "stub": []}
 PROBE_FLOORS = {"revival_attempt": 200, "chain_key_after_roll": 100, "string_key_query": 200, "quote_other_key_between": 500,
                 "query_dead_book": 200, "chain_quote_dispatched_by_environment": 700, "events_delivered_by_an_episode": 350, "replay_with_events_inside_latency_windows": 200, "refused_step_then_retry": 120,
-                "quote_through_a_chain_built_from_an_unsorted_list": 800}
+                "quote_through_a_chain_built_from_an_unsorted_list": 800,
+                "chain_with_intraday_cutoff_looked_up_on_both_sides_of_it": 60}
 
 
 def generate(rng, i):
@@ -99,6 +100,24 @@ def generate(rng, i):
             keys = [rng.randrange(n) for _ in range(rng.randint(1, 4))]
             script.append({"op": "query", "keys": keys, "signs": [rng.choice([1, -1, 0, 2.5, -0.5]) for _ in keys],
                            "by_string": rng.random() < 0.3})
+    chains = [k for k, s in enumerate(specs) if s["kind"] == "chain"]
+    if chains and mode in ("direct", "notify") and i % 3 == 1:
+        # a chain over a user-defined future with an intraday cut-off (noon of the 15th), looked up on a roll day
+        # before and after the cut-off.  Decided and laid out without consuming draws of the generator's stream
+        import random
+        r2 = random.Random("roll-day:{}".format(i))
+        k = chains[0]
+        specs[k]["cls"] = "UN"
+        day = "2019-{:02d}-15".format(r2.randint(2, 12))
+        am, pm = r2.choice(["T09:00:00", "T00:00:00", "T11:59:59"]), r2.choice(["T13:00:00", "T12:00:00", "T23:00:00"])
+        px = 50.0 + r2.randint(0, 20)
+        motif = [{"op": "clock", "t": day + am}, {"op": "query", "keys": [k], "signs": [1], "by_string": False},
+                 {"op": "clock", "t": day + pm}, {"op": "quote", "k": k, "bid": px, "ask": px + 0.5, "t": core.iso(t_cap)},
+                 {"op": "query", "keys": [k], "signs": [-1], "by_string": False, "roll_day_motif": True}]
+        if r2.random() < 0.5:
+            motif.insert(1, {"op": "quote", "k": k, "bid": px - 1, "ask": px - 0.5, "t": core.iso(t_cap)})
+        pos = r2.randint(0, len(script))
+        script[pos:pos] = motif
     fail_at = rng.randint(1, 6) if (mode == "episode" and rng.random() < 0.4) else None
     return {"kind": "c14", "contracts": specs, "script": script, "via_notify": via_notify, "mode": mode, "clock0": "2019-01-02T00:00:00",
             "fail_at": fail_at}
@@ -397,6 +416,8 @@ def _execute(sc, clock0):
                 trace.append("c")
             elif name == "query":
                 stats["queries"] += 1
+                if op.get("roll_day_motif"):
+                    probe("chain_with_intraday_cutoff_looked_up_on_both_sides_of_it")
                 keys = op["keys"]
                 signs = np.array(op["signs"], dtype=float)
                 cs = [contracts[j] for j in keys]
